@@ -207,16 +207,16 @@ def is_one_euclidean(instance: OrdinalInstance):
         instance is in the 1-Euclidean domain, False and None otherwise.
     """
 
-    is_SC, _ = is_single_crossing(instance)
+    is_SC, sc_orders = is_single_crossing(instance)
     # verify that E is single-crossing
     if is_SC:
-        # get the first voter
-        v_1 = list(instance.flatten_strict()[0][0])
+        # get the first voter of the single-crossing order
+        v_1 = list(sc_orders[0])
         # get the top of the first voter
         c_minus = v_1[0]
 
-        # get the last voter
-        v_n = list(instance.flatten_strict()[-1][0])
+        # get the last voter of the single-crossing order
+        v_n = list(sc_orders[-1])
         # get the top of the last voter
         c_plus = v_n[0]
 
